@@ -349,6 +349,14 @@ pub fn run_sqrt(a: &Args, out: &mut Out) {
             fq2_sqrt_ev(out, Fq2::new(Fq::zero(), x));
         }
     }
+    // sweep: every element whose Montgomery representation is a tiny integer or has a single non-zero limb (TLC-generated),
+    // as an Fq radicand and as the real part of an Fq2 radicand (also -2v, whose root is purely imaginary)
+    for v in poolq.lo.iter() {
+        let x = Fq::from_slice(v).unwrap();
+        fq_sqrt_ev(out, x);
+        fq2_sqrt_ev(out, Fq2::new(x, Fq::zero()));
+        fq2_sqrt_ev(out, Fq2::new(-(x + x), Fq::zero()));
+    }
     let mut k = 0u64;
     while !out.full() {
         k += 1;
